@@ -565,6 +565,36 @@ func runReverse(s *Stream) {
 		o.Err = "the host did not connect to the destination within 3 s"
 		return
 	}
+	var backMu sync.Mutex
+	var back [][]byte
+	listen := func(c *websocket.Conn) { // whatever the host sends to the destination over this connection
+		for {
+			_, d, err := c.ReadMessage()
+			if err != nil {
+				return
+			}
+			backMu.Lock()
+			back = append(back, d)
+			backMu.Unlock()
+		}
+	}
+	if s.TwinRules {
+		// the same destination under a second rule id: a second connection of the same destination
+		h.app.Websocket.Add <- rwc.Rule{ID: "d1", Stream: feed, Destination: "ws" + strings.TrimPrefix(dest.URL, "http") + "/in/" + feed}
+		select {
+		case c2 := <-conns:
+			go listen(c2)
+		case <-time.After(3 * time.Second):
+			o.Err = "the host did not open the second connection to the destination within 3 s"
+			return
+		}
+		go listen(dc)
+		defer func() {
+			backMu.Lock()
+			o.Back = append([][]byte{}, back...)
+			backMu.Unlock()
+		}()
+	}
 	// the local feed client: a websocket client of /ws/<feed> (handleWs writePump)
 	fc, err := dialFeed(h, feed, s)
 	if err != nil {
@@ -1227,6 +1257,119 @@ func setLogLevel(level string) {
 	}
 }
 
+// ---------------------------------------------------------------- a destination that stalls longer than any deadline
+
+func runStall(s *Stream) {
+	o := &Observed{}
+	s.Obs = o
+	h := newHost()
+	feed := "feed-" + s.Name
+	up := websocket.Upgrader{CheckOrigin: func(*http.Request) bool { return true }, ReadBufferSize: 1024}
+	var mu sync.Mutex
+	var live []*websocket.Conn
+	reading := make(chan struct{}) // closed when the destination reads again
+	dest := httptest.NewServer(http.HandlerFunc(func(w http.ResponseWriter, r *http.Request) {
+		c, err := up.Upgrade(w, r, nil)
+		if err != nil {
+			return
+		}
+		if tc, ok := c.UnderlyingConn().(*net.TCPConn); ok {
+			_ = tc.SetReadBuffer(4096)
+		}
+		mu.Lock()
+		live = append(live, c)
+		mu.Unlock()
+		<-reading // the stall: connected, but not reading
+		for {
+			if _, _, err := c.ReadMessage(); err != nil {
+				mu.Lock()
+				for i, x := range live {
+					if x == c {
+						live = append(live[:i], live[i+1:]...)
+						break
+					}
+				}
+				mu.Unlock()
+				return
+			}
+		}
+	}))
+	defer dest.Close()
+	h.app.Websocket.Add <- rwc.Rule{ID: "d0", Stream: feed, Destination: "ws" + strings.TrimPrefix(dest.URL, "http") + "/in/" + feed}
+	for i := 0; i < 600; i++ {
+		mu.Lock()
+		n := len(live)
+		mu.Unlock()
+		if n > 0 {
+			break
+		}
+		time.Sleep(5 * time.Millisecond)
+	}
+	fc, err := dialFeed(h, feed, s)
+	if err != nil {
+		o.Err = "dial: " + err.Error()
+		return
+	}
+	defer fc.Close()
+	rx := make(chan []byte, 4096)
+	go func() {
+		for {
+			_, d, err := fc.ReadMessage()
+			if err != nil {
+				return
+			}
+			rx <- d
+		}
+	}()
+	h.barrier()
+	// the feed keeps posting while the destination does not read: far more than the socket buffers hold
+	inj := &hub.Client{Hub: h.app.Hub.Hub, Name: "verif-inj", Topic: feed}
+	chunk := make([]byte, 64*1024)
+	start := time.Now()
+	posted := 0
+	for time.Since(start) < time.Duration(s.StallMs)*time.Millisecond {
+		if posted < s.PostKB*1024 {
+			h.app.Hub.Broadcast <- hub.Message{Sender: *inj, Data: chunk, Type: websocket.BinaryMessage, Sent: time.Now()}
+			posted += len(chunk)
+			time.Sleep(10 * time.Millisecond)
+		} else {
+			h.app.Hub.Broadcast <- hub.Message{Sender: *inj, Data: chunk[:100], Type: websocket.BinaryMessage, Sent: time.Now()}
+			time.Sleep(100 * time.Millisecond)
+		}
+	}
+	close(reading) // the destination recovers
+	time.Sleep(1500 * time.Millisecond)
+	for len(rx) > 0 { // the feed client also saw the feed's own traffic? no: it is excluded only from its own; drop it
+		<-rx
+	}
+	// now the destination talks: every message goes out over every connection the host has with it
+	input := s.wsoutInput()
+	mu.Lock()
+	o.NConns = len(live)
+	mu.Unlock()
+	for k := 0; k < s.Count; k++ {
+		mu.Lock()
+		cs := append([]*websocket.Conn{}, live...)
+		mu.Unlock()
+		for _, c := range cs {
+			_ = c.WriteMessage(websocket.BinaryMessage, input[k*s.Blk:(k+1)*s.Blk])
+		}
+		time.Sleep(4 * time.Millisecond)
+	}
+	o.Posted = s.total()
+collect:
+	for {
+		select {
+		case d := <-rx:
+			if wsoutIndex(d) >= 0 {
+				o.Frames = append(o.Frames, d)
+			}
+		case <-time.After(150 * time.Millisecond):
+			break collect
+		}
+	}
+}
+
 func runStream(s *Stream) {
 	setLogLevel(s.LogLevel)
 	defer func() {
@@ -1245,6 +1388,8 @@ func runStream(s *Stream) {
 		runWsOut(s)
 	case "dest":
 		runDest(s)
+	case "stall":
+		runStall(s)
 	case "wsbig":
 		runBig(s)
 	case "agg":
